@@ -109,7 +109,7 @@ func famNewTrusting(r *hx.Rng, o *hx.Out) {
 func famStatus(e *env, r *hx.Rng, o *hx.Out) {
 	w := e.newWorld(ibctesting.NewTendermintConfig(), ibctesting.NewTendermintConfig(), false)
 	k := e.ibc().ClientKeeper
-	n := hx.N(120, 4000)
+	n := hx.N(120, 1000)
 	for i := 0; i < n; i++ {
 		base, _ := e.A.GetContext().CacheContext()
 		s := e.tmState(base, w.cid1)
